@@ -16,7 +16,7 @@ NB, MB, WB, SWB, FB = 1101, 1102, 1103, 1104, 1105
 # tags of machine transitions the executions must really have taken (vacuity guard)
 REQUIRED_TAGS = {"normal", "low", "multi", "silk", "hybrid", "celt", "firstCleared", "c2sRed", "c2sDrop", "toCeltRed",
                  "toCeltRedMultiLast", "toCeltDrop", "shortSwitch", "bwSwitchRed", "bwSwitchPrefill", "toMono",
-                 "monoAfterToMono", "dtxFrame", "decTransition", "reset", "lowOverride", "monoInCelt"}
+                 "monoAfterToMono", "dtxFrame", "bwSwitchNoRed", "forcedChannelsBind", "decTransition", "reset", "lowOverride", "monoInCelt"}
 
 WITNESSES = [("EncMode_mc_w_lockstep.cfg", "LockStepAlways"), ("EncMode_mc_w_resetagree.cfg", "ResetAgreeAlways"),
              ("EncMode_mc_w_NoToCeltRed.cfg", "NoToCeltRed"), ("EncMode_mc_w_NoC2sRed.cfg", "NoC2sRed"),
@@ -91,7 +91,7 @@ def directed(tier, rng):
         for ch in (1, 2):
             for q in QS:
                 for bud in ("gen", "tight", "cbr"):
-                    if not thorough and (hash((fs, ch, q, bud)) % 3) and q not in (2, 8, 48):
+                    if not thorough and ((fs // 1000 + 7 * ch + 3 * q + len(bud)) % 3) and q not in (2, 8, 48):     # (deterministic thinning)
                         continue
                     app = rng.choice([2048, 2049])
                     b = {"gen": "mx=1500", "tight": "mx=%d" % tight(q), "cbr": "vb=0 mx=1500"}[bud]
@@ -121,6 +121,12 @@ def directed(tier, rng):
                     head(fs, ch, 2048, sd(), 0), q, n, n // 3, n // 3, n))
                 L.append("%s q=%d fm=1000 br=20000 mb=1103 ev12 mb=1101 ev%d mb=1103 ev%d q=2 ev2 q=%d ev3" % (
                     head(fs, ch, 2048, sd(), 1), q, n, n // 2, q))
+    # D2. the same with no room for the redundant frames of the bandwidth switch (the switch then happens bare)
+    for (fs, ch, q, bud) in ([(48000, 1, 8, "mx=40"), (16000, 2, 8, "mx=36"), (16000, 1, 8, "br=12000 vb=0"), (48000, 1, 4, "mx=24")] + (
+            [(24000, 2, 8, "mx=44"), (12000, 1, 8, "mx=36"), (48000, 2, 16, "mx=90"), (16000, 1, 24, "mx=110"), (48000, 1, 8, "br=10000 vb=0")] if thorough else [])):
+        n = max(60, 1600 // q)
+        L.append("%s q=%d fm=1000 br=24000 %s bw=1103 ev12 bw=1101 ev%d bw=1103 ev%d bw=1102 ev%d bw=1101 ev%d fm=1002 ev2" % (
+            head(fs, ch, 2048, sd(), rng.randrange(2)), q, bud, n, n // 3, n // 3, n))
     # E. the TOC-only path after each layer, every duration
     for fs in ([48000, 8000] if not thorough else FS):
         for q in QS:
@@ -255,7 +261,7 @@ def stats(ctx, out):
                     ST["frames"] += len(e["d2"])
                     red = [d for d in e["d2"] if d[0] == 1]
                     ST["redundant_frames"] += len(red)
-                    if red or e["pre"][1] != e["post"][1]:
+                    if red or (e["pre"][1] != 0 and e["pre"][1] != e["post"][1]):
                         sw = True
                         if len(ctx.samples) < 4:
                             ctx.sample(dict(q=e["q"], pre=e["pre"][:6], post=e["post"][:6], toc=e["toc"], sz=e["sz"], d2=e["d2"]))
@@ -264,7 +270,7 @@ def stats(ctx, out):
             elif ln.startswith('{"k":"end"'):
                 ctx.traces += 1
                 if sw:
-                    ctx.nontrivial.add(hash(cur))
+                    ctx.nontrivial.add(os.path.basename(out) + cur)
     ctx.evaluations += n
 
 
@@ -407,7 +413,7 @@ def run(ctx):
 def replay(ctx, exe):
     outs = run_chunks(ctx, exe, [ln.rstrip("\n") for ln in open(ctx.replay) if ln.startswith("X")], 1, "r")
     judge(ctx, exe, outs, "replay")
-    ctx.nontrivial_count = max(1, len(ctx.nontrivial))
+    ctx.nontrivial_count = 0 if ctx.nontrivial else 1
 
 
 META = dict(
